@@ -106,13 +106,17 @@ def extra(stats, tier, seed):
             n = rng.randint(0, 6)
             xs = list(range(n))
             bad = rng.choice([None, None] + xs) if xs else None
+            from concurrent.futures import CancelledError
+            # whatever fn raises is the output's exception - also the exception types that iteration / future machinery
+            # give a meaning of their own
+            badexc = rng.choice([KeyError("k"), StopIteration("stop"), CancelledError(), ValueError(), TimeoutError()])
             calls = []
             futs = {}
 
             def fn(x):
                 calls.append(x)
                 if x == bad:
-                    raise KeyError(x)
+                    raise badexc
                 futs[x] = Future()
                 return futs[x]
             out = f_traverse(fn, xs)
@@ -129,7 +133,7 @@ def extra(stats, tier, seed):
             else:
                 if calls != xs[:xs.index(bad) + 1]:
                     viol("f_traverse called fn with %s (fn raises at %s)" % (calls, bad), "traverse:calls", xs)
-                if not isinstance(out.exception(0), KeyError):
+                if out._state != "FINISHED" or out._exception is not badexc:
                     viol("f_traverse: exception of fn not propagated", "traverse:fault", xs)
             ys = [f_return(i) for i in range(n)]
             s = f_sequence(ys)
